@@ -21,6 +21,13 @@ fn main() {
             c12::run(&mut r);
             r.finish();
         }
+        "C12-scan" => {
+            // diagnostic: the per-seed recall statistics of one workload over a range of seeds
+            let w: u8 = std::env::args().nth(2).and_then(|s| s.parse().ok()).unwrap_or(3);
+            let from: u64 = std::env::args().nth(3).and_then(|s| s.parse().ok()).unwrap_or(0);
+            let to: u64 = std::env::args().nth(4).and_then(|s| s.parse().ok()).unwrap_or(100);
+            c12::scan(w, from, to);
+        }
         other => {
             eprintln!("usage: vf-index <C10|C11|C12> <quick|thorough|replay FILE> (got {other:?})");
             std::process::exit(2);
